@@ -4,6 +4,8 @@
 //!   io.write.<t> <fields…> <k>     serialise into a writer that accepts exactly k bytes in total and
 //!                                  then fails with an injected error
 //!       → <result>;w=<hex of every byte the writer accepted>;post=<write calls after the failure>
+//!                                  (<t> = link.eth2 | link.sll | tp.udp | tp.tcp | tp.icmpv4 | tp.icmpv6: the same
+//!                                  value written through LinkHeader::write / TransportHeader::write)
 //!   io.wslice.<t> <fields…> <cap>  write_to_slice into the first cap bytes (filled 0x5a) of a buffer
 //!                                  that continues with 8 canary bytes
 //!       → <result>;buf=<hex of the cap bytes>;canary=intact|clobbered
@@ -1152,6 +1154,17 @@ pub fn run(op: &str, a: &[&str]) -> Option<String> {
         "io.write.tcp" => simple_write!(a, mk_tcp),
         "io.write.icmpv4" => simple_write!(a, mk_icmpv4),
         "io.write.icmpv6" => simple_write!(a, mk_icmpv6),
+        // ---- the enum wrappers (LinkHeader::write, TransportHeader::write)
+        "io.write.link.eth2" => simple_write!(a, |f| mk_eth2(f).map(|o| o.map(LinkHeader::Ethernet2))),
+        "io.write.link.sll" => simple_write!(a, |f| mk_sll(f).map(|o| o.map(LinkHeader::LinuxSll))),
+        "io.write.tp.udp" => simple_write!(a, |f| mk_udp(f).map(|o| o.map(TransportHeader::Udp))),
+        "io.write.tp.tcp" => simple_write!(a, |f| mk_tcp(f).map(|o| o.map(TransportHeader::Tcp))),
+        "io.write.tp.icmpv4" => {
+            simple_write!(a, |f| mk_icmpv4(f).map(|o| o.map(TransportHeader::Icmpv4)))
+        }
+        "io.write.tp.icmpv6" => {
+            simple_write!(a, |f| mk_icmpv6(f).map(|o| o.map(TransportHeader::Icmpv6)))
+        }
         "io.write.ipv4exts" => {
             // <start> <auth> <k>
             let (f, k) = split_last(a)?;
